@@ -280,8 +280,10 @@ def _escape_aware(items, field_groups: Set[int], repl_is_template: bool) -> Tupl
         return None, "pattern does not open with a literal '{'"
     for negative, bodyitems in rx.lookbehinds(lead):
         if negative and len(bodyitems) == 1 and rx.atom_admits(bodyitems[0][0], bodyitems[0][1], "{"):
-            return True, "negative look-behind for '{'"
-    return False, "no look-behind for '{' and no alternative that consumes the pair"
+            # A look-around sees one neighbouring character: it cannot tell the second brace of an escaped
+            # pair from a field opener that FOLLOWS an escaped pair ('{{{a.b}}}' = '{' + field + '}').
+            return False, "a one-character look-behind for '{' also rejects a field that directly follows an escaped '{{' (as in '{{{a.b}}}'), which str.format renders"
+    return False, "no alternative (or run of pairs) that consumes an escaped '{{' in front of the field"
 
 
 def _r09a(chk, repo, render_fns) -> Dict[int, List[RegexCall]]:
@@ -1049,6 +1051,56 @@ def _r09d(chk, repo, written_keys: Set[str]) -> None:
 # ---------------------------------------------------------------------------
 
 
+def _walk_skipping_classes(fn):
+    """Nodes of a method body including nested functions (closures share `self`), but not nested classes."""
+    stack = list(ast.iter_child_nodes(fn))
+    while stack:
+        n = stack.pop()
+        if isinstance(n, ast.ClassDef):
+            continue
+        yield n
+        stack.extend(ast.iter_child_nodes(n))
+
+
+def _r09f(chk, repo) -> None:
+    """`Linter` creates one templater and calls process() once per file with that file's config
+    (nested .sqlfluff files, inline directives).  Anything a templater memoises on itself from one
+    call -- a compiled param_regex, a context, an environment -- is applied to every later file."""
+    n_cls = n_store = 0
+    for rel in (PH, PY, "src/sqlfluff/core/templaters/base.py", "src/sqlfluff/core/templaters/jinja.py"):
+        m = repo.mod(rel)
+        for qc, c in m.classes():
+            if not any(cc.name == "RawTemplater" for _, cc in repo.mro(m, c)):
+                continue
+            n_cls += 1
+            for item in c.body:
+                if not isinstance(item, (ast.FunctionDef, ast.AsyncFunctionDef)) or item.name == "__init__":
+                    continue
+                for n in _walk_skipping_classes(item):
+                    tgs = n.targets if isinstance(n, ast.Assign) else ([n.target] if isinstance(n, (ast.AugAssign, ast.AnnAssign)) else [])
+                    stores = [x for t in tgs for x in ast.walk(t) if isinstance(x, ast.Attribute) and isinstance(x.value, ast.Name) and x.value.id == "self" and isinstance(x.ctx, ast.Store)]
+                    muts = []
+                    if isinstance(n, ast.Call) and isinstance(n.func, ast.Attribute) and n.func.attr in ("update", "setdefault", "append", "add", "pop", "clear", "extend", "__setitem__"):
+                        v = n.func.value
+                        if isinstance(v, ast.Attribute) and isinstance(v.value, ast.Name) and v.value.id == "self":
+                            muts.append(v)
+                    subs = [x for t in tgs for x in ast.walk(t) if isinstance(x, ast.Subscript) and isinstance(x.ctx, ast.Store) and isinstance(x.value, ast.Attribute)
+                            and isinstance(x.value.value, ast.Name) and x.value.value.id == "self"]
+                    for x in stores + muts + subs:
+                        n_store += 1
+                        chk.fail(
+                            "R09f", n,
+                            f"{c.name}.{item.name} keeps state on the templater object (`{short(n, 70)}`): the Linter reuses this object for every file, so what was derived "
+                            "from one file's config or text is applied to the next one (e.g. a compiled param_regex survives into a directory with its own setting)",
+                            detail=f"{c.name}.{item.name}: store to self outside __init__: {short(x, 50)}",
+                        )
+    chk.count("R09f.templater_classes", n_cls)
+    chk.count("R09f.stores_outside_init", n_store)
+    chk.floor("R09f.templater_classes", 4)
+    if not n_store:
+        chk.ok("R09f", "core templater classes", "no store to self outside __init__")
+
+
 def run(chk) -> None:
     repo = chk.repo
     chk.rule("R09a", "the dotted-name rewrite of the python templater cannot swallow or mis-read escaped braces (regex AST: field-name atoms exclude '{' and '}', an escaped '{{' is skipped)")
@@ -1079,6 +1131,8 @@ def run(chk) -> None:
     rewrites = _r09a(chk, repo, render_fns)
     _r09b(chk, repo, proc, render_fns, rewrites)
     _r09e(chk, repo, proc, render_fns)
+    chk.rule("R09f", "a templater object keeps nothing it derived from one file's config or text: the core templater classes store to self only in __init__ (a Linter reuses one templater for every file, each with its own config)")
+    _r09f(chk, repo)
     written = _r09c(chk, repo)
     _r09d(chk, repo, written)
 
@@ -1087,6 +1141,18 @@ def run(chk) -> None:
 from ..selftest import Variant  # noqa: E402
 
 VARIANTS = [
+    Variant(
+        "rewrite-escapes-by-lookaround", PY,
+        'r"{{|}}|{([^:{}]*\\.[^:{}]*)(:\\S*?)?}", _dot_notation_hack, raw_str',
+        'r"(?<!{){([^:{}]*\\.[^:{}]*)(:\\S*?)?}(?!})", lambda m: "{sqlfluff[%s]%s}" % (m.group(1), m.group(2) or ""), raw_str',
+        "R09a", "escaped '{{' is not skipped", "seeded C09-1: '{{{obj.table}}}' fails with a missing key",
+    ),
+    Variant(
+        "placeholder-regex-memoised-on-the-templater", PH,
+        "            live_context[\"__bind_param_regex\"] = regex.compile(\n                live_context[\"param_regex\"]\n            )\n",
+        "            if getattr(self, \"_custom_bind_regex\", None) is None:\n                self._custom_bind_regex = regex.compile(live_context[\"param_regex\"])\n            live_context[\"__bind_param_regex\"] = self._custom_bind_regex\n",
+        "R09f", "PlaceholderTemplater.get_context", "seeded C09-2: the first file's param_regex is used for every later file",
+    ),
     # ---- behaviour-preserving edits: the check must stay quiet --------------------
     Variant(
         "quiet-span-through-second-local", PH,
